@@ -1,6 +1,7 @@
 package main
 
 import (
+	"crypto/sha1"
 	"bytes"
 	"context"
 	"fmt"
@@ -137,6 +138,11 @@ func runSolver(ctx context.Context, s solverSpec, script string, timeoutS int) s
 	cmd.Stderr = &out
 	cmd.Run()
 	text := out.String()
+	if verdict := strings.TrimSpace(firstLine(text)); verdict != "sat" && len(text) > 4096 {
+		text = text[:4096] // only models are worth keeping in full
+	} else if len(text) > 1<<20 {
+		text = text[:1<<20]
+	}
 	first := strings.TrimSpace(text)
 	if i := strings.IndexByte(first, '\n'); i >= 0 {
 		first = first[:i]
@@ -152,6 +158,9 @@ func runSolver(ctx context.Context, s solverSpec, script string, timeoutS int) s
 }
 
 // solve races the solvers: the primary one alone with a short budget, then all.
+// KeepScripts keeps the SMT text of discharged obligations (for -dump).
+var KeepScripts bool
+
 func solve(script string, timeoutS int, wantModel bool) solveResult {
 	ctx, cancel := context.WithCancel(context.Background())
 	defer cancel()
@@ -215,12 +224,15 @@ func (v *Verifier) solveAll(x *Exec, obls []*Obligation, timeoutS int, stats *So
 	var dup []*Obligation
 	for _, o := range obls {
 		o.Script = v.buildScript(x, o, true)
-		if prev, ok := cache[o.Script]; ok {
+		sum := sha1.Sum([]byte(o.Script))
+		o.scriptHash = string(sum[:])
+		if prev, ok := cache[o.scriptHash]; ok {
 			_ = prev
 			dup = append(dup, o)
+			o.Script = "" // the first obligation with this text keeps it
 			continue
 		}
-		cache[o.Script] = o
+		cache[o.scriptHash] = o
 		wg.Add(1)
 		sem <- struct{}{}
 		go func(o *Obligation) {
@@ -269,6 +281,9 @@ func (v *Verifier) solveAll(x *Exec, obls []*Obligation, timeoutS int, stats *So
 				stats.nBySolver[r.solver]++
 				stats.mu.Unlock()
 			}
+			if (o.Status == "discharged" || o.Status == "infeasible") && !KeepScripts {
+				o.Script = "" // thousands of scripts of ~100 KB each are not worth keeping
+			}
 		}(o)
 	}
 	wg.Wait()
@@ -282,7 +297,7 @@ func (v *Verifier) solveAll(x *Exec, obls []*Obligation, timeoutS int, stats *So
 			if o.Status != "unknown" || o.ExpectSat {
 				continue
 			}
-			if c, ok := cache[o.Script]; ok && c != o {
+			if c, ok := cache[o.scriptHash]; ok && c != o {
 				continue
 			}
 			// a function that leaves this many obligations open is broken, not slow:
@@ -327,7 +342,7 @@ func (v *Verifier) solveAll(x *Exec, obls []*Obligation, timeoutS int, stats *So
 		sem2 := make(chan struct{}, 4)
 		var wg2 sync.WaitGroup
 		for _, o := range retry {
-			if _, isDup := cache[o.Script]; isDup && cache[o.Script] != o {
+			if _, isDup := cache[o.scriptHash]; isDup && cache[o.scriptHash] != o {
 				continue
 			}
 			wg2.Add(1)
@@ -349,8 +364,11 @@ func (v *Verifier) solveAll(x *Exec, obls []*Obligation, timeoutS int, stats *So
 		wg2.Wait()
 	}
 	for _, o := range dup {
-		p := cache[o.Script]
+		p := cache[o.scriptHash]
 		o.Status, o.Solver, o.Time, o.Output, o.Model = p.Status, p.Solver, 0, p.Output, p.Model
+		if p.Status != "discharged" {
+			o.Script = p.Script
+		}
 	}
 }
 
